@@ -864,6 +864,24 @@ async fn run_script(case: &Value) {
                 log(json!({"e": "advance", "ms": ms}));
                 tokio::time::advance(Duration::from_millis(ms)).await;
                 w.settle().await;
+                if cfg.get("drain_after_advance").and_then(|v| v.as_bool()).unwrap_or(false) {
+                    // let a shutdown that the advance triggered run to completion (it waits for the remotes to
+                    // take their final frames), so that the stop is logged at the time it was decided
+                    for _ in 0..200 {
+                        let b0 = bytes_read();
+                        let mut n = 0;
+                        let ids: Vec<u64> = w.remotes.keys().copied().collect();
+                        for r in ids {
+                            while let Some(true) = w.poll_frame(r) {
+                                n += 1;
+                            }
+                        }
+                        w.settle().await;
+                        if n == 0 && bytes_read() == b0 {
+                            break;
+                        }
+                    }
+                }
             }
             "quiesce" => w.quiesce().await,
             "stop" => {
